@@ -139,18 +139,19 @@ func handleMGet(params internal.HandlerFuncParams) ([]byte, error) {
 	}
 
 	values := make(map[string]string)
+	present := make(map[string]bool)
 	for key, value := range params.GetValues(params.Context, keys.ReadKeys) {
 		if value == nil {
-			values[key] = ""
 			continue
 		}
+		present[key] = true
 		values[key] = fmt.Sprintf("%v", value)
 	}
 
 	bytes := []byte(fmt.Sprintf("*%d\r\n", len(params.Command[1:])))
 
 	for _, key := range params.Command[1:] {
-		if values[key] == "" {
+		if !present[key] {
 			bytes = append(bytes, []byte("$-1\r\n")...)
 			continue
 		}
